@@ -35,6 +35,14 @@ DET = {
  "C15-2": (["C15"], "RegTx map histories: rollback with only-younger writes"),
  "C16-1": (["C16"], "table entry byte 2 = 0x80"),
  "C16-2": (["C16"], "table entry byte 3 = 0x80"),
+ "C03r2-1": (["C03"], "Shadow2 warm shape (shadow store to a line Modified in the executing core, dispatched with the branch) on mvp7-0/2; missed until the family had two busy cores and hazard-free fillers"),
+ "C03r2-2": (["C03"], "Shadow2 far shape (shadow jump beyond the branch target) on mvp7-0 with >= 3 cores"),
+ "C04r2-1": (["C04"], "RegDep with the store-miss template on MVP-5; missed until RegDep contained a store that keeps the write path busy"),
+ "C04r2-2": (["C04"], "RegDep: slow load then fast writer of the same register on mvp6-0 with >= 2 units"),
+ "C09r2-1": (["C09"], "Tail2 shape on mvp7-1 with >= 2 cores; missed until the shape (stores pinned to a busy owner core right before ret) existed"),
+ "C09r2-2": (["C09"], "Tail on mvp6-1 with >= 2 units, exit by running past the end"),
+ "C10r2-1": (["C10"], "MemDep warm variant (line resident, address registers dependent on the warming load) on mvp6-2/2; missed until the warm prologue made the pair wait for the line"),
+ "C10r2-2": (["C10"], "LineFill on mvp6-1/2"),
 }
 for d in sorted(os.listdir('/verif/seeded')):
     p = '/verif/seeded/%s/meta.json' % d
